@@ -281,8 +281,10 @@ func (l *WAL) Switch() (*WalFiles, error) {
 	for i := 0; i < l.partitionNum; i++ {
 		go func(lw *LogWriter) {
 			files, err := lw.Switch()
-			errs.Dispatch(err)
+			// hand the file names over before signalling completion: Switch returns as soon as
+			// every partition has dispatched, and the caller removes exactly walFiles' content
 			walFiles.Add(files...)
+			errs.Dispatch(err)
 		}(&l.logWriter[i])
 	}
 
